@@ -65,6 +65,21 @@ class Roles:
         reach = ctx.r.closure([self.process_event], view, include_closures=False)
         ex = [f for f in self.funcs if f.cls is not None and f.qualname in reach and
               self_calls_in(f, "_exit_states") and self_calls_in(f, "_enter_states")]
+        self.defects = []          # (kind, function, message): a role located by fallback because its defining construct is gone
+        if not ex:
+            # no function performs both halves any more: fall back to the one that still performs one of them and holds
+            # the transaction (a try whose handler restores the configuration); the missing half is a violation (C03.R1)
+            same = ctx.r.self_closure([self.process_event], view)
+            half = [f for f in self.funcs if f.cls is not None and f.qualname in same and f.name not in ("_enter_states", "_exit_states") and
+                    (self_calls_in(f, "_exit_states") or self_calls_in(f, "_enter_states")) and
+                    any(isinstance(n, ast.Try) and n.handlers for n in own_nodes(f.node))]
+            if len(half) == 1:
+                ex = half
+                missing = "_exit_states" if not self_calls_in(half[0], "_exit_states") else "_enter_states"
+                self.defects.append(("executor-half", half[0],
+                                     f"{half[0].short} no longer calls {missing}: an external transition "
+                                     + ("activates its target without leaving the source (two active children in one region)" if missing == "_exit_states"
+                                        else "leaves the source without entering the target (no active leaf)")))
         if len(ex) != 1:
             raise AnalysisError(f"view {view}: expected exactly one transition executor (exit+enter), found {[f.short for f in ex]}")
         self.executor = ex[0]
